@@ -613,7 +613,7 @@ func fix128BigIntToUFix64(
 		panic(&UnderflowError{})
 	}
 
-	bigInt = bigInt.Div(bigInt, fixedpoint.Fix64ToFix128FactorAsBigInt)
+	bigInt = bigInt.Quo(bigInt, fixedpoint.Fix64ToFix128FactorAsBigInt)
 
 	return NewUFix64Value(
 		memoryGauge,
